@@ -221,12 +221,12 @@ MultiIds == {"multi"} \X {"none"} \X {"tag1", "tag2", "name2", "dig2"}
 \* archive, a few on a 5 entry one, all Docker format archives
 QuickIds == ({"eidx", "single1", "art"} \X {"none"} \X {"def"})
             \cup ({"eidx"} \X LinkAll \X {"def"})
-            \cup ({"art"} \X {"symroot", "symsib", "hardshared", "idxlink"} \X {"def"})
-            \cup ({"single1"} \X {"none"} \X {"preblobs", "preall"})
+            \cup ({"art"} \X {"symroot", "symsib"} \X {"def"})
             \cup DkIds
 \* small: the other archives of <= 6 entries
 SmallIds == ((OciSmall \ {"eidx", "single1", "art"}) \X {"none"} \X {"def"})
-            \cup ({"art"} \X {"symabs", "hardext", "symup", "dotslash", "junk", "dirs"} \X {"def"})
+            \cup ({"art"} \X {"symabs", "hardext", "symup", "hardshared", "idxlink", "dotslash", "junk", "dirs"} \X {"def"})
+            \cup ({"single1"} \X {"none"} \X {"preblobs", "preall"})
             \cup ({"alg512"} \X {"symroot"} \X {"def"})
 \* mid: archives of 7 entries
 MidIds == (OciMid \X {"none"} \X {"def"})
